@@ -247,4 +247,18 @@ var fnSpecs = []groupSpec{
 		Skip:  []string{"_, dup := dc.queue[uint32(qid)]", "dc.queue[uint32(qid)] = c", "dc.queueMu.Unlock()"},
 		Doc:   "; the body of the search loop: `dup` = the id just taken is still in the waiter table; result = (found, the id, the counter)",
 	}},
+	// ---------------------------------------------------------------- C13: the binary search of List.Contains
+	{Group: "Netlist", fnSpec: fnSpec{
+		File: "pkg/matcher/netlist/list.go", Func: "Contains", Recv: "List", Fuel: "fuel",
+		Lean: "listContains", Params: "(e : List Go.Pfx) (valid : Bool) (addr : Nat) (fuel : Nat)", Ret: "Bool",
+		Expr: map[string]lx{
+			"addr.IsValid()":                 b("valid"),
+			"len(list.e)":                    i("(e.length : Int)"),
+			"int(uint(i+j) >> 1)":            i("((i + j) / 2)"),
+			"list.e[h].Addr().Compare(addr)": i("(Go.cmpNat (Go.pfxAt e h).1 addr)"),
+			"list.e[i-1].Contains(addr)":     b("(Go.pfxContains (Go.pfxAt e (i - 1)) addr)"),
+		},
+		Skip: []string{`if !list.sorted { panic("list is not sorted") }`, "addr = to6(addr)"},
+		Doc:  "; `e` = list.e as (base, bits) over 128-bit addresses, `addr` = to6(addr) as a number, `valid` = addr.IsValid(); `int(uint(i+j) >> 1)` is (i+j)/2 for the non-negative i, j of the loop; the `sorted` panic is a precondition",
+	}},
 }
